@@ -236,12 +236,56 @@ def world_c15(tier, seed, idx):
     return w
 
 
-def world_for(prop, tier, seed, idx):
+def single_world_for(prop, tier, seed, idx):
     if prop == "C15":
         return world_c15(tier, seed, idx)
     if prop == "C16":
         return world_c16(tier, seed, idx)
     raise KeyError(prop)
+
+
+# run indices whose world is a *group of concurrent callers* (sim/concurrent_a.py): the last
+# GROUP_SLOTS indices of every bucket. The members are the worlds of the bucket's other indices
+# (same shapes, hence warm jit caches), the interleaving is decided by a seeded schedule.
+GROUP_SLOTS = {"C15": 1, "C16": 2}
+
+
+def is_group_idx(prop, tier, idx):
+    K = K_BUCKET[prop]
+    if prop == "C16" and tier == "thorough" and idx < len(c16_enumerated()):
+        return False
+    return idx % K >= K - GROUP_SLOTS[prop]
+
+
+def group_world(prop, tier, seed, idx):
+    K = K_BUCKET[prop]
+    rng = rng_for(seed, prop, tier, "group", idx)
+    base = (idx // K) * K
+    pool = [i for i in range(base, base + K) if not is_group_idx(prop, tier, i)]
+    n = rng.choice([2, 2, 2, 3])
+    picks = rng.sample(pool, n)
+    members = []
+    for j, i in enumerate(picks):
+        m = single_world_for(prop, tier, seed, i)
+        if rng.random() < 0.3 and j > 0:  # two callers with the very same key, data and knobs
+            m = dict(members[0])
+        members.append(m)
+    p = rng.choice([0.02, 0.05, 0.1, 0.25, 0.5, 1.0])
+    return {
+        "engine": "A",
+        "prop": prop,
+        "idx": idx,
+        "kind": "group",
+        "loop": "group",
+        "members": members,
+        "sched": {"seed": rng.randrange(2**31), "p": p},
+    }
+
+
+def world_for(prop, tier, seed, idx):
+    if is_group_idx(prop, tier, idx):
+        return group_world(prop, tier, seed, idx)
+    return single_world_for(prop, tier, seed, idx)
 
 
 # ------------------------------------------------------------------ signatures / triviality
